@@ -131,4 +131,8 @@ OrderIrrelevant == phase = "ready" => tree = InsertAll((<<>> :> root), Configure
 \* C02: the tree maximum equals the declared maximum, and nothing admitted is above it
 MaxLevelExact == phase = "ready" => MaxLevelTree(tree) = MaxLevelDecl
 FacadeNeverHides == phase = "ready" => \A t \in Targets : Find(tree, t).lvl <= MaxLevelTree(tree)
+\* (Scale: nothing above bounds the number of configured loggers or ties a name to anything but its text.  The replay
+\* has configurations with 2^8, 2^16 and 2^18 + 1 siblings under one parent; in the largest every sibling has a level of
+\* its own and every one is probed - two names that an implementation takes for one, by whatever stand-in it keeps for a
+\* name, show there.)
 =============================================================================
